@@ -64,6 +64,10 @@ def run(ctx):
     for n in (2, 10, 11, 12, 23):
         for merge in (True, False):
             tasks.append(dict(fn='check_wide_vector', kw=dict(n=n, merge=merge)))
+    for n in (3, 12):
+        for order in ('desc', 'shuffled'):
+            for merge in (True, False):
+                tasks.append(dict(fn='check_wide_vector', kw=dict(n=n, merge=merge, order=order)))
     for gate in ('AND', 'OR', 'NAND', 'NOR', 'XOR'):
         for nin in (2, 3, 4):
             tasks.append(dict(fn='check_bench', kw=dict(gate=gate, nin=nin)))
